@@ -15,5 +15,6 @@ CONSTANTS
   OrderedIteration = TRUE
   SummaryStateless = TRUE
   WeightsRebuilt = TRUE
+  FeedCopied = TRUE
 INVARIANT Functional
 CHECK_DEADLOCK FALSE
